@@ -26,8 +26,9 @@ class Interval(Module):
             upper_bound (float or torch.Tensor): The upper bound on the parameter.
         """
         dtype = torch.get_default_dtype()
-        lower_bound = torch.as_tensor(lower_bound).to(dtype)
-        upper_bound = torch.as_tensor(upper_bound).to(dtype)
+        # the bounds become buffers (load_state_dict copies into them in place): never keep the caller's tensors
+        lower_bound = torch.as_tensor(lower_bound).to(dtype).clone()
+        upper_bound = torch.as_tensor(upper_bound).to(dtype).clone()
 
         if torch.any(torch.ge(lower_bound, upper_bound)):
             raise ValueError("Got parameter bounds with empty intervals.")
